@@ -5,10 +5,12 @@ but counted, exit 1 would be a false alarm.  usage: evalbenign.py [id ...]   Wri
 import json, os, subprocess, sys, shutil, re, concurrent.futures as cf
 ROOT = os.path.dirname(os.path.dirname(os.path.abspath(__file__)))
 plan = json.load(open(os.path.join(ROOT, "contracts", "plan.json")))
-VER = {"src/parser/": ["C02", "C03", "C04", "C05", "C07", "C17"], "src/lexer/": ["C03", "C04", "C05", "C17"], "src/ast.rs": ["C03"],
-       "src/scale.rs": ["C08", "C03"], "src/quantity.rs": ["C10", "C03", "C12"], "src/metadata.rs": ["C13", "C03"],
-       "src/aisle.rs": ["C11", "C03"], "src/error.rs": ["C03"], "src/analysis/": ["C07", "C08", "C03"]}
-KANI_FILES = ("src/quantity.rs", "src/metadata.rs", "src/aisle.rs", "src/error.rs")
+VER = {"src/parser/frontmatter.rs": ["C05", "C17"],
+       "src/parser/": ["C02", "C03", "C04", "C05", "C06", "C07", "C14", "C17"], "src/lexer/": ["C03", "C04", "C05", "C17"], "src/ast.rs": ["C03"],
+       "src/scale.rs": ["C08", "C03"], "src/quantity.rs": ["C10", "C03", "C12"], "src/metadata.rs": ["C13", "C08", "C03"],
+       "src/aisle.rs": ["C11", "C03"], "src/error.rs": ["C07", "C03"], "src/analysis/": ["C06", "C07", "C08"], "src/model.rs": ["C10"]}
+KANI_FILES = ("src/quantity.rs", "src/metadata.rs", "src/aisle.rs", "src/error.rs", "src/model.rs", "src/analysis/event_consumer.rs",
+              "src/parser/frontmatter.rs")
 
 def run_one(cid):
     patch = os.path.join(ROOT, "benign", cid + ".diff")
@@ -18,6 +20,7 @@ def run_one(cid):
         for pre, ps in VER.items():
             if f.startswith(pre):
                 props += [p for p in ps if p not in props]
+                break
     engines = "verus,kani" if any(f in KANI_FILES for f in files) else "verus"
     scratch = f"/var/tmp/benign.{os.getpid()}.{cid}"
     shutil.rmtree(scratch, ignore_errors=True)
